@@ -77,6 +77,20 @@ def de_bruijn2(k):
     db(1, 1)
     return out + out[:1]
 
+def de_bruijn(k, n):
+    """indices 0..k-1 in an order in which every n-tuple is adjacent exactly once (cyclically); closed by its first n-1 elements"""
+    if k == 0: return []
+    a = [0] * (k * n + 1); out = []
+    def db(t, p):
+        if t > n:
+            if n % p == 0: out.extend(a[1:p + 1])
+        else:
+            a[t] = a[t - p]; db(t + 1, p)
+            for j in range(a[t - p] + 1, k):
+                a[t] = j; db(t + 1, t)
+    db(1, 1)
+    return out + out[:n - 1]
+
 OCC = (0xa0, 0xa1, 0xa2, 0xa3, 0xa4, 0xa6, 0xa7, 0xac)
 PAIR_FAMILY = {
     # quick: the family the property is about; thorough: every uplink element (commands: every command)
@@ -143,6 +157,18 @@ def _run(ctx, pid, thorough, rng, exe, tmp):
                 if h["e"] == "up": sp.up(h["n"], h["ty"], h["d"])
                 else: sp.hl(h["fn"], [x if x != "" else None for x in h["s"]], h["i"])
             sp.flush(); sessions.append(sp.end())
+    # triple coverage for ONE detector: every ordered triple of the reports that concern segment g1 of board bB (occupied,
+    # free, addresses with both orientations / none, a multiple report with the bit set / clear) - three steps is what the
+    # occupancy logic can depend on: the flag, the address list and what the last report left of both
+    if pid in ("C07", "C08", "C19"):
+        one = [([1], 0xa0, [0]), ([1], 0xa1, [0]), ([1], 0xa3, [0, 35, 1]), ([1], 0xa3, [0, 35, 129]), ([1], 0xa3, [0, 0, 0]),
+               ([1], 0xa2, [0, 8, 1]), ([1], 0xa2, [0, 8, 0])]
+        seq3 = de_bruijn(len(one), 3); ctx.cov["ordered_triples_replayed"] = len(one) ** 3
+        for ci in range(0, len(seq3), 120):
+            part = seq3[max(ci - 2, 0):ci + 120]
+            st3 = g.Session("tri%d" % (ci // 120), track_mc.MC_CFG, os.path.join(tmp, "tri%d" % ci), paths=dict(track_mc.MC_PATHS), full=True)
+            for k in part: st3.up(*one[k])
+            st3.flush(); sessions.append(st3.end())
     # every message type code once, from a connected board (C06: destination is a function of type and content)
     if pid in ("C06", "C12") or thorough:
         for mode in (0, 1):
